@@ -217,7 +217,7 @@ class Blue(object):
             width = len(body)
             v = int(body, 2)
         elif kind != "int":
-            if kind == "other" and width is None:
+            if width is None:
                 raise Expected("E:value")
             raise Expected("E:type")
         if width is None:
@@ -458,3 +458,1581 @@ class Blue(object):
         r = memo.setdefault(("intern", r), len(memo))
         memo[k] = r
         return r
+
+
+# ----------------------------------------------------------------------------- spellings
+def sp_py(sp):
+    kind, v = sp
+    if kind == "int":
+        return v
+    if kind == "bool":
+        return v
+    if kind == "float":
+        return v[0] / v[1]
+    if kind == "frac":
+        return Fraction(v[0], v[1])
+    if kind == "pair":
+        return (v[0], v[1])
+    return "1"
+
+
+def sp_wire(sp):
+    kind, v = sp
+    if kind == "int":
+        return "int:%d" % v
+    if kind == "bool":
+        return "bool:%d" % (1 if v else 0)
+    if kind in ("float", "frac"):
+        return "%s:%d/%d" % (kind, v[0], v[1])
+    if kind == "pair":
+        return "pair:%d,%d" % v
+    return "other"
+
+
+def is_dyadic(q):
+    d = q.denominator
+    return d & (d - 1) == 0 and abs(q.numerator) < 2 ** 53 and d < 2 ** 60
+
+
+def real_spellings(q, rng):
+    """every documented spelling of the rational q"""
+    out = [("frac", (q.numerator, q.denominator))]
+    for k in (1, -1, 2, 3, -5):
+        out.append(("pair", (q.numerator * k, q.denominator * k)))
+    if q.denominator == 1:
+        out.append(("int", q.numerator))
+    if is_dyadic(q):
+        out.append(("float", (q.numerator, q.denominator)))
+    return out
+
+
+def bv_spellings(v, w):
+    """(ctor, value spelling, width argument)"""
+    b = format(v, "0%db" % w)
+    out = [("BV", ("int", v), w), ("BV", ("str", "#b" + b), None), ("BV", ("str", "#b" + b), w),
+           ("BV", ("str", b), None), ("BV", ("str", b), w)]
+    if v < 2 ** (w - 1):
+        out.append(("SBV", ("int", v), w))
+    else:
+        out.append(("SBV", ("int", v - 2 ** w), w))
+    out.append(("SBV", ("str", "#b" + b), None))
+    if v == 0:
+        out.append(("BVZero", None, w))
+    if v == 1:
+        out.append(("BVOne", None, w))
+    return out
+
+
+def bvval_py(val):
+    kind, v = val
+    if kind in ("int", "str"):
+        return v
+    if kind == "bool":
+        return True
+    return None
+
+
+def bvval_wire(val):
+    kind, v = val
+    if kind == "int":
+        return "i%d" % v
+    if kind == "str":
+        return "s" + hx(v)
+    return "o"
+
+
+class Res(object):
+    __slots__ = ("env", "obj", "out", "kid", "exp", "recipe", "name", "special")
+
+    def __init__(self, env, obj, out, kid, exp, recipe, name, special=None):
+        self.env, self.obj, self.out, self.kid, self.exp = env, obj, out, kid, exp
+        self.recipe, self.name, self.special = recipe, name, special
+
+
+U = ("C", "U", ())
+PAIR_II = ("C", "Pair", (("I",), ("I",)))
+BOX_PAIR = ("C", "Box", (PAIR_II,))
+BOX_U = ("C", "Box", (U,))
+BASE_TYPES = [("B",), ("I",), ("R",), ("S",), ("V", 1), ("V", 2), ("V", 3), ("V", 4), ("V", 8), ("V", 12), U,
+              PAIR_II, BOX_PAIR, BOX_U]
+ARRAY_TYPES = [("A", ("I",), ("I",)), ("A", ("V", 2), ("V", 4)), ("A", ("I",), ("B",)), ("A", ("I",), ("R",)),
+               ("A", ("V", 2), ("A", ("I",), ("I",))), ("A", U, ("I",)), ("A", ("S",), BOX_PAIR)]
+FUN_TYPES = [("F", ("B",), (("I",),)), ("F", ("I",), (("I",), ("I",))), ("F", U, (U,)), ("F", PAIR_II, (U, ("I",))),
+             ("F", ("V", 4), (("V", 4), ("B",))), ("F", ("R",), (BOX_PAIR,)), ("F", ("A", ("I",), ("I",)), (("I",),)),
+             ("F", BOX_PAIR, (PAIR_II,)), ("F", ("S",), (("S",), ("R",)))]
+STRINGS = ["", "a", "ab", "abc", "0", "-3", "\"q\"", "a b", "é中", "x|y", "\\n"]
+INTS = [0, 1, -1, 2, 3, -3, 5, 7, 10, 255, 2 ** 70, -(2 ** 64)]
+RATS = [Fraction(0), Fraction(1), Fraction(-1), Fraction(1, 2), Fraction(-1, 2), Fraction(3, 2), Fraction(2), Fraction(1, 3),
+        Fraction(-7, 3), Fraction(5, 4), Fraction(1, 10), Fraction(0.1), Fraction(3), Fraction(2 ** 70, 3), Fraction(1, 1024)]
+
+
+class History(object):
+    """One construction history, executed on pysmt while it is generated."""
+
+    def __init__(self, rng, nops, tier):
+        from pysmt.environment import Environment
+        self.rng = rng
+        self.nops = nops
+        self.envs = [Environment(), Environment()]
+        self.mgr = [x.formula_manager for x in self.envs]
+        self.B = Blue()
+        self.res = []
+        self.ops = []
+        self.pool = [{}, {}]
+        self.symidx = [{}, {}]       # name -> result index of a successful Symbol op
+        self.pytypes = [{}, {}]
+        self.counts = {}
+        self.viol = []               # (sig, what)
+        self.norm_checks = []
+        self.max_widths = 24
+        self.akid = {}
+        self.tyids = {}
+        self.keep = []
+
+    # ------------------------------------------------------------------ basics
+    def r(self, i):
+        return "r%d" % i
+
+    def o(self, i):
+        return self.res[i].obj
+
+    def k(self, i):
+        return self.res[i].kid
+
+    def tyof(self, i):
+        return self.B.ty[self.res[i].kid]
+
+    def pytype(self, e, t):
+        """the real type object of environment e (created bottom-up through its TypeManager;
+        the first creation is mirrored by a `Type` op so that the model registers it too)"""
+        c = self.pytypes[e]
+        if t in c:
+            return c[t]
+        tm = self.envs[e].type_manager
+        new = not all(s in c for s in subtypes(t))
+        obj = self._mk_type(tm, c, t)
+        if new and t[0] not in "BIRS":
+            self.res.append(Res(e, None, "0", None, None, None, "Type", special="type"))
+            self.ops.append("%d Type %s" % (e, ty_str(t)))
+        return obj
+
+    def _mk_type(self, tm, c, t):
+        if t in c:
+            return c[t]
+        k = t[0]
+        if k == "B":
+            r = tm.BOOL()
+        elif k == "I":
+            r = tm.INT()
+        elif k == "R":
+            r = tm.REAL()
+        elif k == "S":
+            r = tm.STRING()
+        elif k == "V":
+            r = tm.BVType(t[1])
+        elif k == "A":
+            r = tm.ArrayType(self._mk_type(tm, c, t[1]), self._mk_type(tm, c, t[2]))
+        elif k == "F":
+            ps = [self._mk_type(tm, c, p) for p in t[2]]
+            r = tm.FunctionType(self._mk_type(tm, c, t[1]), ps)
+        else:
+            args = [self._mk_type(tm, c, p) for p in t[2]]
+            d = tm.Type(t[1], len(t[2]))
+            r = d if len(t[2]) == 0 else tm.get_type_instance(d, *args)
+        c[t] = r
+        return r
+
+    GENERIC = ("BVUn", "BVNary", "BVBin", "BVNotOf", "BVShift", "BVRot", "BVExt")
+
+    def emit(self, e, name, wire, pyc, bluec, recipe=None):
+        mgr = self.mgr[e]
+        try:
+            obj = pyc(mgr)
+            out = None
+        except Exception as ex:           # the outcome is compared like a value
+            obj = None
+            out = classify(ex)
+        try:
+            kid = bluec(self.B)
+            exp = None
+        except Expected as x:
+            kid = None
+            exp = x.cls
+        idx = len(self.res)
+        self.res.append(Res(e, obj, out, kid, exp, recipe, name))
+        self.ops.append("%d %s" % (e, " ".join([name] + wire)))
+        self.counts[name] = self.counts.get(name, 0) + 1
+        if obj is not None and kid is not None:
+            self.pool[e].setdefault(self.B.ty[kid], []).append(idx)
+        return idx
+
+    def build(self, e, name, *args):
+        wire, pyc, bluec = getattr(self, "c_" + name)(e, *args)
+        wname = args[0] if name in self.GENERIC else name
+        return self.emit(e, wname, wire, pyc, bluec, recipe=(name, args))
+
+    def tyidx(self, t):
+        return self.tyids.setdefault(t, len(self.tyids))
+
+    def usable(self, i):
+        x = self.res[i]
+        return x.obj is not None and x.kid is not None
+
+    # ------------------------------------------------------------------ constructors: (wire, python call, blueprint call)
+    def c_Symbol(self, e, name, t):
+        ty = self.pytype(e, t)
+        return ["h" + hx(name), ty_str(t)], (lambda m: m.Symbol(name, ty)), (lambda B: self._blue_symbol(e, name, t))
+
+    def _blue_symbol(self, e, name, t):
+        prev = self.symty(e).get(name)
+        if prev is not None:
+            if prev != t:
+                raise Expected("E:type")
+        elif name == "":
+            raise Expected("E:value")
+        return self.B.Symbol(name, t)
+
+    def symty(self, e):
+        """declared symbols of environment e (generation guidance and the blueprint of Symbol /
+        FreshSymbol, read from the manager's public symbol table)"""
+        return {n: ty_of_obj(s.symbol_type()) for n, s in self.mgr[e].symbols.items()}
+
+    def c_Fresh(self, e, t, pre, post):
+        ty = self.pytype(e, t)
+        tmpl = pre + "%d" + post
+        guess = self.mgr[e]._fresh_guess
+        names = set(self.mgr[e].symbols)
+
+        def blue(B):
+            c = guess
+            while (tmpl % c) in names:
+                c += 1
+            return B.Symbol(tmpl % c, t)
+        if pre == "FV" and post == "":
+            py = lambda m: m.FreshSymbol(ty)
+        else:
+            py = lambda m: m.FreshSymbol(ty, tmpl)
+        return [ty_str(t), "h" + hx(pre), "h" + hx(post)], py, blue
+
+    def _lst(self, idx):
+        return "[" + ",".join(self.r(i) for i in idx) + "]"
+
+    def _nary(self, e, pyname, idx, style, bluef):
+        objs = [self.o(i) for i in idx]
+        if style == 0:
+            py = lambda m: getattr(m, pyname)(*objs)
+        elif style == 1:
+            py = lambda m: getattr(m, pyname)(objs)
+        elif style == 2:
+            py = lambda m: getattr(m, pyname)(tuple(objs))
+        else:
+            py = lambda m: getattr(m, pyname)(iter(objs))
+        ks = tuple(self.k(i) for i in idx)
+        return [self._lst(idx)], py, (lambda B: bluef(B, ks))
+
+    def c_And(self, e, idx, style=0):
+        return self._nary(e, "And", idx, style, lambda B, ks: B.And(ks))
+
+    def c_Or(self, e, idx, style=0):
+        return self._nary(e, "Or", idx, style, lambda B, ks: B.Or(ks))
+
+    def c_Plus(self, e, idx, style=0):
+        return self._nary(e, "Plus", idx, style, lambda B, ks: B.nary("PLUS", ks, None))
+
+    def c_Times(self, e, idx, style=0):
+        return self._nary(e, "Times", idx, style, lambda B, ks: B.nary("TIMES", ks, None))
+
+    def c_StrConcat(self, e, idx, style=0):
+        def blue(B, ks):
+            if len(ks) <= 1:
+                raise Expected("E:type")
+            return B.plain("STR_CONCAT", ks, ("S",))
+        return self._nary(e, "StrConcat", idx, style, blue)
+
+    def c_AtMostOne(self, e, idx, style=0):
+        return self._nary(e, "AtMostOne", idx, style, lambda B, ks: B.AtMostOne(ks))
+
+    def c_ExactlyOne(self, e, idx, style=0):
+        return self._nary(e, "ExactlyOne", idx, style, lambda B, ks: B.ExactlyOne(ks))
+
+    def c_AllDifferent(self, e, idx, style=0):
+        return self._nary(e, "AllDifferent", idx, style, lambda B, ks: B.AllDifferent(ks))
+
+    def c_Min(self, e, idx, style=0):
+        return self._nary(e, "Min", idx, style, lambda B, ks: B.MinMax(True, "LE", ks))
+
+    def c_Max(self, e, idx, style=0):
+        return self._nary(e, "Max", idx, style, lambda B, ks: B.MinMax(False, "LE", ks))
+
+    def c_MinBV(self, e, sign, idx):
+        objs = [self.o(i) for i in idx]
+        ks = tuple(self.k(i) for i in idx)
+        le = "BV_SLE" if sign else "BV_ULE"
+        return ["1" if sign else "0", self._lst(idx)], (lambda m: m.MinBV(sign, *objs)), (lambda B: B.MinMax(True, le, ks))
+
+    def c_MaxBV(self, e, sign, idx):
+        objs = [self.o(i) for i in idx]
+        ks = tuple(self.k(i) for i in idx)
+        le = "BV_SLE" if sign else "BV_ULE"
+        return ["1" if sign else "0", self._lst(idx)], (lambda m: m.MaxBV(sign, objs)), (lambda B: B.MinMax(False, le, ks))
+
+    def c_BVNary(self, e, pyname, idx, style=0):
+        nt = {"BVAnd": "BV_AND", "BVOr": "BV_OR", "BVAdd": "BV_ADD", "BVMul": "BV_MUL"}[pyname]
+        return self._nary(e, pyname, idx, style, lambda B, ks: B.BVNary(nt, ks))
+
+    def c_BVConcat(self, e, idx, style=0):
+        return self._nary(e, "BVConcat", idx, style, lambda B, ks: B.BVConcat(ks))
+
+    # fixed-arity constructors that are one create_node: (python name, node type, result type or None = type of arg k, swap)
+    PLAIN = {
+        "Implies": ("IMPLIES", "B", False), "Iff": ("IFF", "B", False), "Minus": ("MINUS", 0, False),
+        "Equals": ("EQUALS", "B", False), "LE": ("LE", "B", False), "LT": ("LT", "B", False),
+        "GE": ("LE", "B", True), "GT": ("LT", "B", True),
+        "BVULT": ("BV_ULT", "B", False), "BVULE": ("BV_ULE", "B", False), "BVUGT": ("BV_ULT", "B", True),
+        "BVUGE": ("BV_ULE", "B", True), "BVSLT": ("BV_SLT", "B", False), "BVSLE": ("BV_SLE", "B", False),
+        "BVSGT": ("BV_SLT", "B", True), "BVSGE": ("BV_SLE", "B", True),
+        "StrContains": ("STR_CONTAINS", "B", False), "StrPrefixOf": ("STR_PREFIXOF", "B", False),
+        "StrSuffixOf": ("STR_SUFFIXOF", "B", False), "StrCharAt": ("STR_CHARAT", "S", False),
+        "StrLength": ("STR_LENGTH", "I", False), "StrToInt": ("STR_TO_INT", "I", False),
+        "IntToStr": ("INT_TO_STR", "S", False), "BVToNatural": ("BV_TONATURAL", "I", False),
+        "Ite": ("ITE", 1, False), "StrIndexOf": ("STR_INDEXOF", "I", False), "StrReplace": ("STR_REPLACE", "S", False),
+        "StrSubstr": ("STR_SUBSTR", "S", False), "Store": ("ARRAY_STORE", 0, False),
+        "Select": ("ARRAY_SELECT", "elem", False),
+    }
+
+    def c_P(self, e, pyname, *idx):
+        nt, rt, swap = self.PLAIN[pyname]
+        objs = [self.o(i) for i in idx]
+        ks = tuple(self.k(i) for i in idx)
+        if rt == "elem":
+            ty = self.tyof(idx[0])[2]
+        elif isinstance(rt, int):
+            ty = self.tyof(idx[rt])
+        else:
+            ty = (rt,)
+        bk = (ks[1], ks[0]) if swap else ks
+        return [self.r(i) for i in idx], (lambda m: getattr(m, pyname)(*objs)), (lambda B: B.plain(nt, bk, ty))
+
+    def emitP(self, e, pyname, *idx):
+        wire, pyc, bluec = self.c_P(e, pyname, *idx)
+        return self.emit(e, pyname, wire, pyc, bluec, recipe=("P", (pyname,) + idx))
+
+    def c_Not(self, e, i):
+        a, ka = self.o(i), self.k(i)
+        return [self.r(i)], (lambda m: m.Not(a)), (lambda B: B.Not(ka))
+
+    def c_Xor(self, e, i, j):
+        a, b, ka, kb = self.o(i), self.o(j), self.k(i), self.k(j)
+        return [self.r(i), self.r(j)], (lambda m: m.Xor(a, b)), (lambda B: B.Not(B.plain("IFF", (ka, kb), ("B",))))
+
+    def c_NotEquals(self, e, i, j):
+        a, b, ka, kb = self.o(i), self.o(j), self.k(i), self.k(j)
+        return [self.r(i), self.r(j)], (lambda m: m.NotEquals(a, b)), (lambda B: B.Not(B.plain("EQUALS", (ka, kb), ("B",))))
+
+    def c_EqualsOrIff(self, e, i, j):
+        a, b, ka, kb = self.o(i), self.o(j), self.k(i), self.k(j)
+        return [self.r(i), self.r(j)], (lambda m: m.EqualsOrIff(a, b)), (lambda B: B.EqualsOrIff(ka, kb))
+
+    def c_Pow(self, e, i, j):
+        a, b, ka, kb = self.o(i), self.o(j), self.k(i), self.k(j)
+        return [self.r(i), self.r(j)], (lambda m: m.Pow(a, b)), (lambda B: B.Pow(ka, kb))
+
+    def c_Div(self, e, i, j):
+        a, b, ka, kb = self.o(i), self.o(j), self.k(i), self.k(j)
+        return [self.r(i), self.r(j)], (lambda m: m.Div(a, b)), (lambda B: B.Div(ka, kb))
+
+    def c_ToReal(self, e, i):
+        a, ka = self.o(i), self.k(i)
+        return [self.r(i)], (lambda m: m.ToReal(a)), (lambda B: B.ToReal(ka))
+
+    def c_ForAll(self, e, vs, b):
+        return self._quant(e, "ForAll", "FORALL", vs, b)
+
+    def c_Exists(self, e, vs, b):
+        return self._quant(e, "Exists", "EXISTS", vs, b)
+
+    def _quant(self, e, pyname, nt, vs, b):
+        vo = [self.o(i) for i in vs]
+        vk = [self.k(i) for i in vs]
+        bo, bk = self.o(b), self.k(b)
+        return [self._lst(vs), self.r(b)], (lambda m: getattr(m, pyname)(vo, bo)), (lambda B: B.Quant(nt, vk, bk))
+
+    def c_Function(self, e, f, ps):
+        fo, fk = self.o(f), self.k(f)
+        po = [self.o(i) for i in ps]
+        pk = [self.k(i) for i in ps]
+        return [self.r(f), self._lst(ps)], (lambda m: m.Function(fo, po)), (lambda B: B.Function(fk, pk))
+
+    def c_Real(self, e, sp):
+        v = sp_py(sp)
+        return [sp_wire(sp)], (lambda m: m.Real(v)), (lambda B: B.Real(sp))
+
+    def c_Int(self, e, sp):
+        v = sp_py(sp)
+        return [sp_wire(sp)], (lambda m: m.Int(v)), (lambda B: B.Int(sp))
+
+    def c_Bool(self, e, sp):
+        v = sp_py(sp)
+        return [sp_wire(sp)], (lambda m: m.Bool(v)), (lambda B: B.Bool(sp))
+
+    def c_TRUE(self, e):
+        return [], (lambda m: m.TRUE()), (lambda B: B.T)
+
+    def c_FALSE(self, e):
+        return [], (lambda m: m.FALSE()), (lambda B: B.F)
+
+    def c_String(self, e, s):
+        if s is None:
+            return ["o"], (lambda m: m.String(5)), (lambda B: B.String(None))
+        return ["s" + hx(s)], (lambda m: m.String(s)), (lambda B: B.String(s))
+
+    def c_BV(self, e, val, w):
+        v = bvval_py(val)
+        ww = "N" if w is None else str(w)
+        if w is None:
+            py = lambda m: m.BV(v)
+        else:
+            py = lambda m: m.BV(v, w)
+        return [bvval_wire(val), ww], py, (lambda B: B.BV(val, w))
+
+    def c_SBV(self, e, val, w):
+        v = bvval_py(val)
+        ww = "N" if w is None else str(w)
+        return [bvval_wire(val), ww], (lambda m: m.SBV(v, w)), (lambda B: B.SBV(val, w))
+
+    def c_BVOne(self, e, _v, w):
+        return [str(w)], (lambda m: m.BVOne(w)), (lambda B: B.BV(("int", 1), w))
+
+    def c_BVZero(self, e, _v, w):
+        return [str(w)], (lambda m: m.BVZero(w)), (lambda B: B.BV(("int", 0), w))
+
+    def c_BVUn(self, e, pyname, i):
+        nt = {"BVNot": "BV_NOT", "BVNeg": "BV_NEG"}[pyname]
+        a, ka = self.o(i), self.k(i)
+        return [self.r(i)], (lambda m: getattr(m, pyname)(a)), (lambda B: B.BVUn(nt, ka))
+
+    BVBIN = {"BVXor": "BV_XOR", "BVSub": "BV_SUB", "BVUDiv": "BV_UDIV", "BVURem": "BV_UREM", "BVSDiv": "BV_SDIV",
+             "BVSRem": "BV_SREM"}
+
+    def c_BVBin(self, e, pyname, i, j):
+        nt = self.BVBIN[pyname]
+        a, b, ka, kb = self.o(i), self.o(j), self.k(i), self.k(j)
+        return [self.r(i), self.r(j)], (lambda m: getattr(m, pyname)(a, b)), (lambda B: B.BVBin(nt, ka, kb))
+
+    def c_BVNotOf(self, e, pyname, i, j):
+        nt = {"BVNand": "BV_AND", "BVNor": "BV_OR", "BVXnor": "BV_XOR"}[pyname]
+        a, b, ka, kb = self.o(i), self.o(j), self.k(i), self.k(j)
+        return [self.r(i), self.r(j)], (lambda m: getattr(m, pyname)(a, b)), \
+            (lambda B: B.BVUn("BV_NOT", B.BVBin(nt, ka, kb)))
+
+    def c_BVShift(self, e, pyname, i, rhs):
+        nt = {"BVLShl": "BV_LSHL", "BVLShr": "BV_LSHR", "BVAShr": "BV_ASHR"}[pyname]
+        a, ka = self.o(i), self.k(i)
+        if rhs[0] == "int":
+            n = rhs[1]
+            return [self.r(i), "i%d" % n], (lambda m: getattr(m, pyname)(a, n)), (lambda B: B.BVShift(nt, ka, ("int", n)))
+        b, kb = self.o(rhs[1]), self.k(rhs[1])
+        return [self.r(i), self.r(rhs[1])], (lambda m: getattr(m, pyname)(a, b)), (lambda B: B.BVShift(nt, ka, ("node", kb)))
+
+    def c_BVExtract(self, e, i, start, end):
+        a, ka = self.o(i), self.k(i)
+        if end is None:
+            py = (lambda m: m.BVExtract(a, start)) if start != 0 else (lambda m: m.BVExtract(a))
+        else:
+            py = lambda m: m.BVExtract(a, start, end)
+        return [self.r(i), str(start), "N" if end is None else str(end)], py, (lambda B: B.BVExtract(ka, start, end))
+
+    def c_BVRot(self, e, pyname, i, n):
+        nt = {"BVRol": "BV_ROL", "BVRor": "BV_ROR"}[pyname]
+        a, ka = self.o(i), self.k(i)
+        return [self.r(i), str(n)], (lambda m: getattr(m, pyname)(a, n)), (lambda B: B.BVRot(nt, ka, n))
+
+    def c_BVExt(self, e, pyname, i, n):
+        nt = {"BVZExt": "BV_ZEXT", "BVSExt": "BV_SEXT"}[pyname]
+        a, ka = self.o(i), self.k(i)
+        return [self.r(i), str(n)], (lambda m: getattr(m, pyname)(a, n)), (lambda B: B.BVExt(nt, ka, n))
+
+    def c_BVComp(self, e, i, j):
+        a, b, ka, kb = self.o(i), self.o(j), self.k(i), self.k(j)
+        return [self.r(i), self.r(j)], (lambda m: m.BVComp(a, b)), (lambda B: B.BVComp(ka, kb))
+
+    def c_BVSMod(self, e, i, j):
+        a, b, ka, kb = self.o(i), self.o(j), self.k(i), self.k(j)
+        return [self.r(i), self.r(j)], (lambda m: m.BVSMod(a, b)), (lambda B: B.BVSMod(ka, kb))
+
+    def c_BVRepeat(self, e, i, n):
+        a, ka = self.o(i), self.k(i)
+        return [self.r(i), str(n)], (lambda m: m.BVRepeat(a, n)), (lambda B: B.BVRepeat(ka, n))
+
+    def c_Array(self, e, it, d, kvs):
+        ty = self.pytype(e, it)
+        do, dk = self.o(d), self.k(d)
+        assign = {self.o(a): self.o(b) for a, b in kvs}
+        kassign = {self.k(a): self.k(b) for a, b in kvs}
+        order = [self.k(a) for a, _ in sorted(kvs, key=lambda ab: id(self.o(ab[0])))]
+        wire = [ty_str(it), self.r(d), "[" + ",".join("%s:%s" % (self.r(a), self.r(b)) for a, b in kvs) + "]"]
+        if not kvs and self.rng.random() < 0.5:
+            py = lambda m: m.Array(ty, do)
+        else:
+            py = lambda m: m.Array(ty, do, assign)
+        return wire, py, (lambda B: B.Array(it, dk, kassign, order))
+
+    def c_Algebraic(self, e, tag):
+        return ["h" + hx(tag)], (lambda m: m._Algebraic(tag)), (lambda B: B.Algebraic(tag))
+
+    # ------------------------------------------------------------------ special ops
+    def do_get(self, e, a, i):
+        """array_value_get (read-only accessor)"""
+        ao, io = self.o(a), self.o(i)
+        try:
+            got = ao.array_value_get(io)
+            out = None
+        except Exception as ex:
+            got = None
+            out = classify(ex)
+        self.res.append(Res(e, got, out, None, None, None, "get", special=("get", a, i)))
+        self.ops.append("%d get %s %s" % (e, self.r(a), self.r(i)))
+        self.counts["get"] = self.counts.get("get", 0) + 1
+
+    def do_normalize(self, e, i):
+        """mgr[e].normalize(object i of the other environment)"""
+        src = self.o(i)
+        symbefore = self.symty(e)
+        decl = dict((n, d.arity) for n, d in self.envs[e].type_manager._custom_types_decl.items())
+        try:
+            got = self.mgr[e].normalize(src)
+            out = None
+        except Exception as ex:
+            got = None
+            out = classify(ex)
+        idx = len(self.res)
+        # blueprint: rejected iff a symbol of the DAG is declared with another type in the
+        # target, or a custom sort of the DAG is declared with another arity there
+        exp = None
+        syms, sorts = self._dag_symbols(self.k(i))
+        for name, t in syms:
+            if symbefore.get(name, t) != t:
+                exp = "E:type"
+        for name, ar in sorts:
+            if decl.get(name, ar) != ar:
+                exp = exp or "E:value"
+        x = Res(e, got, out, None, exp, None, "normalize", special=("norm", i))
+        self.res.append(x)
+        self.ops.append("%d normalize %s" % (e, self.r(i)))
+        self.counts["normalize"] = self.counts.get("normalize", 0) + 1
+        if got is not None:
+            # types of the copy exist in the target now: make them known to the generator
+            for _, t in syms:
+                for st in subtypes(t):
+                    self._adopt_type(e, st)
+            x.kid = self.actual_kid(got, {})
+            self.pool[e].setdefault(self.B.ty[x.kid], []).append(idx)
+        else:
+            self.pytypes[e] = {}       # partially interned types: rebuild the generator's view lazily
+            self._resync_types(e)
+        return idx
+
+    def _adopt_type(self, e, t):
+        if t not in self.pytypes[e]:
+            tm = self.envs[e].type_manager
+            self._mk_type(tm, self.pytypes[e], t)
+
+    def _resync_types(self, e):
+        """after a failed normalize: the generator's type cache only keeps what the target's
+        TypeManager really holds (no Type op is emitted for those)"""
+        tm = self.envs[e].type_manager
+        c = self.pytypes[e]
+        for w, o in tm._bv_types.items():
+            c[("V", w)] = o
+        for o in list(tm._custom_types.values()) + list(tm._array_types.values()) + list(tm._function_types.values()):
+            c[ty_of_obj(o)] = o
+        for k, o in (("B", tm.BOOL()), ("I", tm.INT()), ("R", tm.REAL()), ("S", tm.STRING())):
+            c[(k,)] = o
+
+    def _dag_symbols(self, kid):
+        seen, syms, sorts = set(), set(), set()
+        stack = [kid]
+        while stack:
+            k = stack.pop()
+            if k in seen:
+                continue
+            seen.add(k)
+            nt, args, pl = self.B.node[k]
+            stack.extend(args)
+            if pl is not None:
+                if pl[0] == "y":
+                    syms.add((pl[1], pl[2]))
+                    for st in subtypes(pl[2]):
+                        if st[0] == "C":
+                            sorts.add((st[1], len(st[2])))
+                elif pl[0] == "V":
+                    stack.extend(pl[1])
+                elif pl[0] == "f":
+                    stack.append(pl[1])
+                elif pl[0] == "t":
+                    for st in subtypes(pl[1]):
+                        if st[0] == "C":
+                            sorts.add((st[1], len(st[2])))
+        return syms, sorts
+
+    # ------------------------------------------------------------------ reading objects back (accessors only)
+    def payload_of(self, n, memo):
+        """(blueprint payload key, wire payload) of a node, through the public accessors"""
+        import pysmt.operators as op
+        nt = n.node_type()
+        raw = n._content.payload
+        if nt == op.SYMBOL:
+            t = ty_of_obj(n.symbol_type())
+            return ("y", n.symbol_name(), t), "y%s@%s" % (hx(n.symbol_name()), ty_str(t))
+        if nt == op.BOOL_CONSTANT:
+            v = n.constant_value()
+            if type(v) is not bool:
+                return ("?", repr(v)), "?" + repr(v)
+            return ("b", v), "b1" if v else "b0"
+        if nt == op.INT_CONSTANT:
+            v = n.constant_value()
+            if type(v) is not int:
+                return ("?", repr(v)), "?" + repr(v)
+            return ("i", v), "i%d" % v
+        if nt == op.REAL_CONSTANT:
+            v = n.constant_value()
+            if type(v) is not Fraction:
+                return ("?", repr(v)), "?" + repr(v)
+            return ("q", v.numerator, v.denominator), "q%d/%d" % (v.numerator, v.denominator)
+        if nt == op.STR_CONSTANT:
+            v = n.constant_value()
+            return ("s", v), "s" + hx(v)
+        if nt == op.BV_CONSTANT:
+            v, w = n.constant_value(), n.bv_width()
+            if type(v) is not int or type(w) is not int:
+                return ("?", repr((v, w))), "?" + repr((v, w))
+            return ("v", v, w), "v%d/%d" % (v, w)
+        if nt == op.ALGEBRAIC_CONSTANT:
+            v = n.constant_value()
+            return ("a", v), "a" + hx(v)
+        if nt in (op.FORALL, op.EXISTS):
+            vs = n.quantifier_vars()
+            return ("V", tuple(self.actual_kid(v, memo) for v in vs)), "V" + ",".join(str(v.node_id()) for v in vs)
+        if nt == op.FUNCTION:
+            f = n.function_name()
+            return ("f", self.actual_kid(f, memo)), "f%d" % f.node_id()
+        if nt == op.ARRAY_VALUE:
+            t = ty_of_obj(n.array_value_index_type())
+            return ("t", t), "t" + ty_str(t)
+        if nt == op.BV_EXTRACT:
+            p = (n.bv_width(), n.bv_extract_start(), n.bv_extract_end())
+        elif nt in (op.BV_ROL, op.BV_ROR):
+            p = (n.bv_width(), n.bv_rotation_step())
+        elif nt in (op.BV_ZEXT, op.BV_SEXT):
+            p = (n.bv_width(), n.bv_extend_step())
+        elif nt in op.BV_OPERATORS:
+            p = (n.bv_width(),)
+        else:
+            if raw is not None:
+                return ("?", repr(raw)), "?" + repr(raw)
+            return None, "N"
+        if any(type(x) is not int for x in p) or len(raw) != len(p):
+            return ("?", repr(raw)), "?" + repr(raw)
+        return ("n",) + p, "n" + ",".join(str(x) for x in p)
+
+    def actual_kid(self, n, memo):
+        """structure of an object as the accessors report it, interned in the blueprint table"""
+        key = id(n)
+        k = self.akid.get(key)
+        if k is not None:
+            return k
+        # iterative post-order over args (payload nodes are shallow: symbols)
+        stack = [(n, False)]
+        while stack:
+            x, done = stack.pop()
+            if id(x) in self.akid:
+                continue
+            if not done:
+                stack.append((x, True))
+                for a in x.args():
+                    if id(a) not in self.akid:
+                        stack.append((a, False))
+                nt = x.node_type()
+                if nt in (0, 1):
+                    for v in x.quantifier_vars():
+                        if id(v) not in self.akid:
+                            stack.append((v, False))
+                elif nt == 8:
+                    if id(x.function_name()) not in self.akid:
+                        stack.append((x.function_name(), False))
+            else:
+                pk, _ = self.payload_of(x, memo)
+                ty = self._type_of(x)
+                self.akid[id(x)] = self.B.mk(x.node_type(), tuple(self.akid[id(a)] for a in x.args()), pk, ty)
+                self.keep.append(x)
+        return self.akid[key]
+
+    def _type_of(self, x):
+        try:
+            return ty_of_obj(self.envs[0].stc.get_type(x))
+        except Exception:
+            return ("?",)
+
+    # ------------------------------------------------------------------ generation
+    def leaf(self, e, t):
+        rng = self.rng
+        k = t[0]
+        roll = rng.random()
+        if k == "B" and roll < 0.25:
+            return self.build(e, "Bool", ("bool", rng.random() < 0.5))
+        if k == "I" and roll < 0.5:
+            return self.build(e, "Int", ("int", rng.choice(INTS)))
+        if k == "R" and roll < 0.5:
+            return self.build(e, "Real", rng.choice(real_spellings(rng.choice(RATS), rng)))
+        if k == "S" and roll < 0.5:
+            return self.build(e, "String", rng.choice(STRINGS))
+        if k == "V" and roll < 0.5:
+            v = rng.randrange(2 ** t[1]) if rng.random() < 0.7 else rng.choice([0, 1, 2 ** t[1] - 1])
+            c, val, w = rng.choice(bv_spellings(v, t[1]))
+            return self.build(e, c, val, w)
+        if k == "A" and roll < 0.4:
+            d = self.pick(e, t[2])
+            return self.build(e, "Array", t[1], d, ())
+        name = "%s%d_%d" % (t[0].lower(), self.tyidx(t), rng.randrange(3))
+        if self.symty(e).get(name, t) != t:
+            name += "'"
+        return self.build(e, "Symbol", name, t)
+
+    def pick(self, e, t, fresh=0.12):
+        lst = self.pool[e].get(t)
+        if lst and self.rng.random() > fresh:
+            if self.rng.random() < 0.5:
+                return lst[-1 - min(int(self.rng.expovariate(0.4)), len(lst) - 1)]
+            return self.rng.choice(lst)
+        i = self.leaf(e, t)
+        if not self.usable(i):
+            # a leaf constructor was (wrongly or rightly) rejected: fall back to a plain symbol
+            i = self.build(e, "Symbol", "fb%d_%d" % (self.tyidx(t), len(self.res)), t)
+        return i
+
+    def picks(self, e, t, n):
+        return tuple(self.pick(e, t) for _ in range(n))
+
+    def const_of(self, e, t):
+        """index of a constant of sort t (array index / exponent positions)"""
+        rng = self.rng
+        k = t[0]
+        if k == "I":
+            return self.build(e, "Int", ("int", rng.choice(INTS[:8])))
+        if k == "R":
+            return self.build(e, "Real", rng.choice(real_spellings(rng.choice(RATS[:8]), rng)))
+        if k == "S":
+            return self.build(e, "String", rng.choice(STRINGS))
+        if k == "V":
+            c, val, w = rng.choice(bv_spellings(rng.randrange(2 ** t[1]), t[1]))
+            return self.build(e, c, val, w)
+        if k == "B":
+            return self.build(e, "Bool", ("bool", rng.random() < 0.5))
+        return None
+
+    def g_bool(self, e):
+        rng = self.rng
+        B = ("B",)
+        c = rng.randrange(14)
+        st = rng.randrange(4)
+        if c == 0:
+            return self.build(e, "Not", self.pick(e, B))
+        if c == 1:
+            return self.build(e, rng.choice(["And", "Or"]), self.picks(e, B, rng.choice([0, 1, 2, 2, 3, 4])), st)
+        if c == 2:
+            return self.emitP(e, rng.choice(["Implies", "Iff"]), *self.picks(e, B, 2))
+        if c == 3:
+            return self.build(e, "Xor", *self.picks(e, B, 2))
+        if c == 4:
+            t = self.anytype()
+            return self.emitP(e, "Ite", self.pick(e, B), *self.picks(e, t, 2))
+        if c == 5:
+            return self.build(e, rng.choice(["AtMostOne", "ExactlyOne"]), self.picks(e, B, rng.randrange(0, 5)), st)
+        if c == 6:
+            t = self.anytype()
+            return self.build(e, "AllDifferent", self.picks(e, t, rng.randrange(0, 4)), st)
+        if c == 7:
+            t = self.anytype()
+            return self.build(e, "EqualsOrIff", *self.picks(e, t, 2))
+        if c == 8:
+            t = self.anytype(nobool=True)
+            return self.emitP(e, "Equals", *self.picks(e, t, 2))
+        if c == 9:
+            t = self.anytype(nobool=True)
+            return self.build(e, "NotEquals", *self.picks(e, t, 2))
+        if c == 10:
+            return self.build(e, rng.choice(["TRUE", "FALSE"]))
+        if c == 11:
+            return self.build(e, "Bool", rng.choice([("bool", True), ("bool", False), ("int", 1), ("other", None)]))
+        # quantifiers over symbols
+        vs = []
+        for _ in range(rng.choice([0, 1, 1, 2, 3])):
+            t = rng.choice([("B",), ("I",), ("R",), ("V", 4), U])
+            name = "q%s%d" % (ty_str(t)[0], rng.randrange(3))
+            if self.symty(e).get(name, t) != t:
+                continue
+            vs.append(self.build(e, "Symbol", name, t))
+        vs = tuple(v for v in vs if self.usable(v))
+        return self.build(e, rng.choice(["ForAll", "Exists"]), vs, self.pick(e, B))
+
+    def anytype(self, nobool=False):
+        rng = self.rng
+        r = rng.random()
+        if r < 0.7:
+            t = rng.choice(BASE_TYPES)
+        elif r < 0.9:
+            t = rng.choice(ARRAY_TYPES)
+        else:
+            t = rng.choice(BASE_TYPES)
+        if nobool and t == ("B",):
+            t = ("I",)
+        return t
+
+    def g_arith(self, e):
+        rng = self.rng
+        T = rng.choice([("I",), ("R",)])
+        c = rng.randrange(9)
+        if c == 0:
+            return self.build(e, rng.choice(["Plus", "Times"]), self.picks(e, T, rng.choice([0, 1, 2, 2, 3, 4])), rng.randrange(4))
+        if c == 1:
+            return self.emitP(e, "Minus", *self.picks(e, T, 2))
+        if c == 2:
+            return self.emitP(e, rng.choice(["LE", "LT", "GE", "GT"]), *self.picks(e, T, 2))
+        if c == 3:
+            a = self.pick(e, T)
+            r = rng.random()
+            if r < 0.5:
+                b = self.const_of(e, T)
+            else:
+                b = self.pick(e, T)
+            if not self.usable(b):
+                return b
+            return self.build(e, "Div", a, b)
+        if c == 4:
+            r = rng.random()
+            if r < 0.45:        # symbolic base, constant exponent of the same sort
+                a = self.build(e, "Symbol", "pw%s" % T[0], T)
+                b = self.const_of(e, T)
+            elif r < 0.9:       # constant base: folds
+                a = self.const_of(e, T)
+                b = self.build(e, "Int", ("int", rng.randrange(4)))
+            else:               # non-constant exponent: rejected
+                a = self.pick(e, T)
+                b = self.build(e, "Symbol", "pe%s" % T[0], T)
+            if not (self.usable(a) and self.usable(b)):
+                return a
+            ka, kb = self.k(a), self.k(b)
+            if self.B.is_const(ka) and self.B.is_const(kb):
+                if self.B.node[kb][2][0] != "i" or self.B.node[kb][2][1] < 0 or abs(self.B.node[ka][2][1]) > 2 ** 40:
+                    return a
+            return self.build(e, "Pow", a, b)
+        if c == 5:
+            t = rng.choice([("I",), ("I",), ("R",)])
+            return self.build(e, "ToReal", self.pick(e, t) if rng.random() < 0.6 else self.const_of(e, t))
+        if c == 6:
+            return self.build(e, rng.choice(["Min", "Max"]), self.picks(e, T, rng.choice([1, 2, 3, 4, 5])), rng.randrange(3))
+        if c == 7:
+            return self.gen_const(e)
+        return self.emitP(e, "Ite", self.pick(e, ("B",)), *self.picks(e, T, 2))
+
+    def gen_const(self, e):
+        """every numeric spelling, legal and illegal"""
+        rng = self.rng
+        c = rng.randrange(8)
+        if c == 0:
+            n = rng.choice(INTS)
+            sp = rng.choice([("int", n), ("int", n), ("float", (n, 1)) if abs(n) < 2 ** 53 else ("int", n),
+                             ("frac", (n, 1)), ("bool", n % 2 == 1), ("other", None), ("pair", (n, 1))])
+            return self.build(e, "Int", sp)
+        if c in (1, 2, 3):
+            q = rng.choice(RATS)
+            sps = real_spellings(q, rng) + [("bool", q != 0), ("other", None), ("pair", (q.numerator, 0))]
+            return self.build(e, "Real", rng.choice(sps))
+        if c == 4:
+            return self.build(e, "String", rng.choice(STRINGS + [None]))
+        w = rng.choice([1, 2, 3, 4, 8, 12])
+        v = rng.randrange(2 ** w)
+        if c in (5, 6):
+            ctor, val, ww = rng.choice(bv_spellings(v, w))
+            return self.build(e, ctor, val, ww)
+        bad = [("BV", ("int", 2 ** w), w), ("BV", ("int", -1), w), ("BV", ("str", "#b102"), None), ("BV", ("str", "abc"), None),
+               ("BV", ("str", "#b"), None), ("BV", ("str", ""), None), ("BV", ("str", "#b01"), 3), ("BV", ("int", v), None),
+               ("BV", ("bool", True), w), ("BV", ("other", None), w), ("BV", ("other", None), None),
+               ("SBV", ("int", 2 ** (w - 1)), w), ("SBV", ("int", -(2 ** (w - 1)) - 1), w), ("SBV", ("int", 1), None),
+               ("SBV", ("int", -(2 ** (w - 1))), w), ("SBV", ("int", -1), w), ("SBV", ("other", None), w)]
+        ctor, val, ww = rng.choice(bad)
+        return self.build(e, ctor, val, ww)
+
+    def g_bv(self, e):
+        rng = self.rng
+        w = rng.choice([1, 2, 3, 4, 4, 8, 12])
+        T = ("V", w)
+        c = rng.randrange(17)
+        if c == 0:
+            return self.build(e, "BVUn", rng.choice(["BVNot", "BVNeg"]), self.pick(e, T))
+        if c == 1:
+            return self.build(e, "BVNary", rng.choice(["BVAnd", "BVOr", "BVAdd", "BVMul"]),
+                              self.picks(e, T, rng.choice([0, 1, 2, 2, 3, 4])), rng.randrange(3))
+        if c == 2:
+            return self.build(e, "BVBin", rng.choice(sorted(self.BVBIN)), *self.picks(e, T, 2))
+        if c == 3:
+            ws = [rng.choice([1, 2, 3, 4]) for _ in range(rng.choice([1, 2, 2, 3]))]
+            return self.build(e, "BVConcat", tuple(self.pick(e, ("V", x)) for x in ws), rng.randrange(3))
+        if c == 4:
+            a = self.pick(e, T)
+            r = rng.random()
+            if r < 0.7:
+                s = rng.randrange(w)
+                en = rng.randrange(s, w)
+            elif r < 0.85:
+                s, en = rng.randrange(w), None
+            else:
+                s, en = rng.choice([(1, 0), (0, w), (-1, 0), (2, 1)])
+            return self.build(e, "BVExtract", a, s, en)
+        if c == 5:
+            return self.emitP(e, rng.choice(["BVULT", "BVULE", "BVUGT", "BVUGE", "BVSLT", "BVSLE", "BVSGT", "BVSGE"]),
+                              *self.picks(e, T, 2))
+        if c == 6:
+            a = self.pick(e, T)
+            if rng.random() < 0.5:
+                rhs = ("node", self.pick(e, T))
+            else:
+                rhs = ("int", rng.choice([0, 1, w - 1, 2 ** w - 1, 2 ** w, -1]))
+            return self.build(e, "BVShift", rng.choice(["BVLShl", "BVLShr", "BVAShr"]), a, rhs)
+        if c == 7:
+            return self.build(e, "BVRot", rng.choice(["BVRol", "BVRor"]), self.pick(e, T), rng.randrange(0, w + 1))
+        if c == 8:
+            return self.build(e, "BVExt", rng.choice(["BVZExt", "BVSExt"]), self.pick(e, T), rng.randrange(0, 5))
+        if c == 9:
+            return self.build(e, "BVComp", *self.picks(e, T, 2))
+        if c == 10:
+            return self.build(e, "BVNotOf", rng.choice(["BVNand", "BVNor", "BVXnor"]), *self.picks(e, T, 2))
+        if c == 11:
+            return self.build(e, "BVSMod", *self.picks(e, T, 2))
+        if c == 12:
+            return self.build(e, "BVRepeat", self.pick(e, ("V", rng.choice([1, 2, 3]))), rng.choice([1, 2, 3, 4]))
+        if c == 13:
+            return self.emitP(e, "BVToNatural", self.pick(e, T))
+        if c == 14:
+            sign = rng.random() < 0.5
+            return self.build(e, rng.choice(["MinBV", "MaxBV"]), sign, self.picks(e, T, rng.choice([1, 2, 3, 4])))
+        if c == 15:
+            return self.gen_const(e)
+        return self.emitP(e, "Ite", self.pick(e, ("B",)), *self.picks(e, T, 2))
+
+    def g_str(self, e):
+        rng = self.rng
+        S, I = ("S",), ("I",)
+        c = rng.randrange(11)
+        if c == 0:
+            return self.emitP(e, rng.choice(["StrLength", "StrToInt"]), self.pick(e, S))
+        if c == 1:
+            return self.build(e, "StrConcat", self.picks(e, S, rng.choice([0, 1, 2, 2, 3, 4])), rng.randrange(3))
+        if c == 2:
+            return self.emitP(e, rng.choice(["StrContains", "StrPrefixOf", "StrSuffixOf"]), *self.picks(e, S, 2))
+        if c == 3:
+            return self.emitP(e, "StrIndexOf", self.pick(e, S), self.pick(e, S), self.pick(e, I))
+        if c == 4:
+            return self.emitP(e, "StrReplace", *self.picks(e, S, 3))
+        if c == 5:
+            return self.emitP(e, "StrSubstr", self.pick(e, S), self.pick(e, I), self.pick(e, I))
+        if c == 6:
+            return self.emitP(e, "IntToStr", self.pick(e, I))
+        if c == 7:
+            return self.emitP(e, "StrCharAt", self.pick(e, S), self.pick(e, I))
+        if c == 8:
+            return self.build(e, "String", rng.choice(STRINGS))
+        if c == 9:
+            return self.build(e, "Algebraic", rng.choice(["alg0", "alg1", "√2"]))
+        return self.emitP(e, "Equals", *self.picks(e, S, 2))
+
+    def g_array(self, e):
+        rng = self.rng
+        T = rng.choice(ARRAY_TYPES)
+        it, et = T[1], T[2]
+        c = rng.randrange(6)
+        if c == 0:
+            return self.emitP(e, "Select", self.pick(e, T), self.pick(e, it))
+        if c == 1:
+            return self.emitP(e, "Store", self.pick(e, T), self.pick(e, it), self.pick(e, et))
+        if c in (2, 3, 4):
+            if it[0] not in "IRSVB":
+                return self.build(e, "Array", it, self.pick(e, et), ())
+            d = self.pick(e, et)
+            kvs = {}
+            for _ in range(rng.choice([0, 1, 2, 3, 5, 8])):
+                k = self.const_of(e, it) if rng.random() < 0.93 else self.pick(e, it)
+                if not self.usable(k):
+                    continue
+                v = d if rng.random() < 0.2 else self.pick(e, et)
+                kvs[self.o(k)] = (k, v)
+            a = self.build(e, "Array", it, d, tuple(kvs.values()))
+            if self.usable(a):
+                # array_value_get on present, absent and default-valued indexes
+                for k, _ in list(kvs.values())[:3]:
+                    if self.B.is_const(self.k(k)):
+                        self.do_get(e, a, k)
+                k = self.const_of(e, it)
+                if self.usable(k):
+                    self.do_get(e, a, k)
+            return a
+        # get on an older array value
+        cands = [i for i in self.pool[e].get(T, []) if self.B.nt(self.k(i)) == NTN["ARRAY_VALUE"]]
+        if cands and it[0] in "IRSVB":
+            k = self.const_of(e, it)
+            if self.usable(k):
+                self.do_get(e, rng.choice(cands), k)
+            return k
+        return self.leaf(e, T)
+
+    def g_uf(self, e):
+        rng = self.rng
+        ft = rng.choice(FUN_TYPES)
+        f = self.build(e, "Symbol", "f%d_%d" % (rng.randrange(2), self.tyidx(ft)), ft)
+        if not self.usable(f):
+            return f
+        r = rng.random()
+        if r < 0.8:
+            ps = tuple(self.pick(e, p) for p in ft[2])
+        elif r < 0.9:
+            ps = ()
+        else:
+            ps = tuple(self.pick(e, p) for p in ft[2]) + (self.pick(e, ft[2][0]),)
+        return self.build(e, "Function", f, ps)
+
+    def g_symbol(self, e):
+        rng = self.rng
+        r = rng.random()
+        if r < 0.35:
+            t = self.anytype()
+            return self.leaf(e, t)
+        if r < 0.55:    # shared names, clashing types
+            return self.build(e, "Symbol", rng.choice(["c0", "c1", "FV1", "FV3", "a0b", ""]), rng.choice(BASE_TYPES[:6]))
+        if r < 0.85:
+            pre, post = rng.choice([("FV", ""), ("FV", ""), ("a", "b"), ("", "")])
+            return self.build(e, "Fresh", self.anytype(), pre, post)
+        if r < 0.93:    # a sort declared with different arities in the two environments
+            d = self.envs[e].type_manager._custom_types_decl.get("Q")
+            ar = d.arity if d is not None else e
+            t = ("C", "Q", ()) if ar == 0 else ("C", "Q", (("I",),))
+            return self.build(e, "Symbol", "qs%d" % rng.randrange(2), t)
+        t = rng.choice([BOX_PAIR, ("C", "Box", (BOX_PAIR,)), ("A", BOX_PAIR, PAIR_II), ("F", BOX_U, (BOX_PAIR,))])
+        return self.build(e, "Symbol", "n%d_%d" % (rng.randrange(2), self.tyidx(t)), t)
+
+    # ------------------------------------------------------------------ other routes to an existing formula
+    def alt(self, e, name, args):
+        """an equivalent call (documented normalisation / other spelling), or the same one"""
+        rng = self.rng
+        if name == "P":
+            py = args[0]
+            swapped = {"LE": "GE", "GE": "LE", "LT": "GT", "GT": "LT", "BVULT": "BVUGT", "BVUGT": "BVULT",
+                       "BVULE": "BVUGE", "BVUGE": "BVULE", "BVSLT": "BVSGT", "BVSGT": "BVSLT", "BVSLE": "BVSGE",
+                       "BVSGE": "BVSLE"}
+            if py in swapped and rng.random() < 0.6:
+                return "P", (swapped[py], args[2], args[1])
+            if py == "Iff" and rng.random() < 0.4 and self.tyof(args[1]) == ("B",):
+                return "EqualsOrIff", (args[1], args[2])
+            if py == "Equals" and rng.random() < 0.4:
+                return "EqualsOrIff", (args[1], args[2])
+            return name, args
+        if name in ("And", "Or", "Plus", "Times", "StrConcat", "AtMostOne", "ExactlyOne", "AllDifferent", "Min", "Max",
+                    "BVConcat"):
+            return name, (args[0], rng.randrange(3))
+        if name == "BVNary":
+            return name, (args[0], args[1], rng.randrange(3))
+        if name == "Real":
+            try:
+                k = self.B.Real(args[0])
+            except Expected:
+                return name, args
+            p = self.B.node[k][2]
+            return name, (rng.choice(real_spellings(Fraction(p[1], p[2]), rng)),)
+        if name in ("BV", "SBV", "BVOne", "BVZero"):
+            try:
+                k = self.B.BV(("int", 1), args[1]) if name == "BVOne" else \
+                    self.B.BV(("int", 0), args[1]) if name == "BVZero" else getattr(self.B, name)(args[0], args[1])
+            except Expected:
+                return name, args
+            p = self.B.node[k][2]
+            c, val, w = rng.choice(bv_spellings(p[1], p[2]))
+            return c, (val, w)
+        if name == "Xor" and rng.random() < 0.5:
+            i = self.emitP(e, "Iff", args[0], args[1])
+            return "Not", (i,)
+        if name == "NotEquals" and rng.random() < 0.5:
+            i = self.emitP(e, "Equals", args[0], args[1])
+            return "Not", (i,)
+        if name == "BVNotOf" and rng.random() < 0.5:
+            inner = {"BVNand": ("BVNary", ("BVAnd", (args[1], args[2]), 0)), "BVNor": ("BVNary", ("BVOr", (args[1], args[2]), 0)),
+                     "BVXnor": ("BVBin", ("BVXor", args[1], args[2]))}[args[0]]
+            i = self.build(e, inner[0], *inner[1])
+            return "BVUn", ("BVNot", i)
+        if name == "BVShift" and args[2][0] == "int" and rng.random() < 0.5 and self.usable(args[1]):
+            w = self.tyof(args[1])[1]
+            if 0 <= args[2][1] < 2 ** w:
+                i = self.build(e, "BV", ("int", args[2][1]), w)
+                return name, (args[0], args[1], ("node", i))
+        return name, args
+
+    def redo(self, e, name, args):
+        if name == "P":
+            return self.emitP(e, *args)
+        return self.build(e, name, *args)
+
+    def replay(self, e):
+        """re-issue an earlier call (possibly through another spelling): must hit the same object"""
+        c = [i for i, x in enumerate(self.res) if x.env == e and x.recipe is not None]
+        if not c:
+            return None
+        i = self.rng.choice(c)
+        name, args = self.res[i].recipe
+        name, args = self.alt(e, name, args)
+        return self.redo(e, name, args)
+
+    def rebuild(self, e, budget=40):
+        """re-create the whole DAG of an earlier result bottom-up, in another order, through
+        other spellings, so that the final call meets the existing object by a different route"""
+        c = [i for i, x in enumerate(self.res) if x.env == e and x.recipe is not None and self.usable(i)]
+        if not c:
+            return None
+        root = self.rng.choice(c[-30:]) if self.rng.random() < 0.7 else self.rng.choice(c)
+        memo = {}
+        left = [budget]
+
+        def go(i):
+            if i in memo:
+                return memo[i]
+            x = self.res[i]
+            if x.recipe is None or not self.usable(i) or left[0] <= 0:
+                memo[i] = i
+                return i
+            left[0] -= 1
+            name, args = x.recipe
+            new = self._map_refs(name, args, go)
+            if new is None:
+                memo[i] = i
+                return i
+            name2, args2 = self.alt(e, name, new)
+            j = self.redo(e, name2, args2)
+            memo[i] = j if self.usable(j) else i
+            return memo[i]
+        return go(root)
+
+    def _map_refs(self, name, args, go):
+        """apply `go` to the result indices inside a recipe (in a random order)"""
+        rng = self.rng
+        def many(t):
+            order = list(range(len(t)))
+            rng.shuffle(order)
+            out = list(t)
+            for p in order:
+                out[p] = go(t[p])
+            return tuple(out)
+        if name == "P":
+            return (args[0],) + many(args[1:])
+        if name in ("And", "Or", "Plus", "Times", "StrConcat", "AtMostOne", "ExactlyOne", "AllDifferent", "Min", "Max",
+                    "BVConcat"):
+            return (many(args[0]),) + tuple(args[1:])
+        if name in ("MinBV", "MaxBV"):
+            return (args[0], many(args[1]))
+        if name == "BVNary":
+            return (args[0], many(args[1])) + tuple(args[2:])
+        if name in ("Not", "ToReal"):
+            return (go(args[0]),)
+        if name in ("Xor", "NotEquals", "EqualsOrIff", "Pow", "Div", "BVComp", "BVSMod"):
+            return many(args)
+        if name in ("ForAll", "Exists"):
+            b = go(args[1])
+            return (many(args[0]), b)
+        if name == "Function":
+            return (go(args[0]), many(args[1]))
+        if name in ("BVUn",):
+            return (args[0], go(args[1]))
+        if name in ("BVBin", "BVNotOf"):
+            return (args[0],) + many(args[1:])
+        if name == "BVShift":
+            rhs = args[2]
+            if rhs[0] == "node":
+                rhs = ("node", go(rhs[1]))
+            return (args[0], go(args[1]), rhs)
+        if name in ("BVExtract", "BVRepeat"):
+            return (go(args[0]),) + tuple(args[1:])
+        if name in ("BVRot", "BVExt"):
+            return (args[0], go(args[1]), args[2])
+        if name == "Array":
+            d = go(args[1])
+            kvs = tuple((go(k), go(v)) for k, v in args[2])
+            if len(set(kvs_k for kvs_k, _ in kvs)) != len(kvs):
+                return None
+            return (args[0], d, kvs)
+        return args     # leaves: Symbol, Fresh(never replayed identically), constants
+
+    def g_normalize(self, e):
+        other = 1 - e
+        c = [i for i, x in enumerate(self.res) if x.env == other and self.usable(i)]
+        if not c:
+            return None
+        i = self.rng.choice(c[-25:]) if self.rng.random() < 0.6 else self.rng.choice(c)
+        return self.do_normalize(e, i)
+
+    def run(self):
+        rng = self.rng
+        # histories differ in their mix: one or two environments, favourite theories
+        w = {"bool": 3, "arith": 3, "bv": 3, "str": 1.5, "array": 1.5, "uf": 1, "symbol": 1.5,
+             "const": 1.5, "replay": 3, "rebuild": 2.5, "normalize": 1.2}
+        for k in list(w):
+            w[k] *= rng.choice([0.2, 1, 1, 3])
+        p_env1 = rng.choice([0.0, 0.1, 0.3, 0.5])
+        if p_env1 == 0.0:
+            w["normalize"] = 0
+        names = list(w)
+        weights = [w[k] for k in names]
+        while len(self.ops) < self.nops:
+            e = 1 if rng.random() < p_env1 else 0
+            g = rng.choices(names, weights)[0]
+            if g == "bool":
+                self.g_bool(e)
+            elif g == "arith":
+                self.g_arith(e)
+            elif g == "bv":
+                self.g_bv(e)
+            elif g == "str":
+                self.g_str(e)
+            elif g == "array":
+                self.g_array(e)
+            elif g == "uf":
+                self.g_uf(e)
+            elif g == "symbol":
+                self.g_symbol(e)
+            elif g == "const":
+                self.gen_const(e)
+            elif g == "replay":
+                self.replay(e)
+            elif g == "rebuild":
+                self.rebuild(e)
+            else:
+                self.g_normalize(e)
+
+    # ------------------------------------------------------------------ evaluation of one history
+    def dag(self, root):
+        """all FNode objects of a formula (children and payload nodes)"""
+        seen = {}
+        stack = [root]
+        while stack:
+            x = stack.pop()
+            if id(x) in seen:
+                continue
+            seen[id(x)] = x
+            stack.extend(x.args())
+            nt = x.node_type()
+            if nt in (0, 1):
+                stack.extend(x.quantifier_vars())
+            elif nt == 8:
+                stack.append(x.function_name())
+        return seen
+
+    def interned(self, tm, ty):
+        """is `ty` (and every sub-type) the object registered in TypeManager tm?"""
+        if ty.is_bool_type() or ty.is_int_type() or ty.is_real_type() or ty.is_string_type():
+            return True
+        try:
+            if ty.is_bv_type():
+                return tm._bv_types[ty.width] is ty
+            if ty.is_array_type():
+                return tm._array_types[(ty.index_type, ty.elem_type)] is ty and \
+                    self.interned(tm, ty.index_type) and self.interned(tm, ty.elem_type)
+            if ty.is_function_type():
+                return tm._function_types[(ty.return_type, tuple(ty.param_types))] is ty and \
+                    self.interned(tm, ty.return_type) and all(self.interned(tm, p) for p in ty.param_types)
+            d = tm._custom_types_decl[ty.basename]
+            return ty.decl is d and tm._custom_types[(d, tuple(ty.args or ()))] is ty and \
+                all(self.interned(tm, a) for a in (ty.args or ()))
+        except KeyError:
+            return False
+
+    def table(self, e):
+        m = self.mgr[e]
+        rows = []
+        memo = {}
+        for n in sorted(m.formulae.values(), key=lambda n: n.node_id()):
+            _, pw = self.payload_of(n, memo)
+            try:
+                bw = str(n.bv_width())
+            except Exception:
+                bw = "-"
+            rows.append("%d;%d;%s;%s;%s" % (n.node_id(), n.node_type(), ",".join(str(a.node_id()) for a in n.args()), pw, bw))
+        syms = ",".join("%s:%d" % (hx(k), v.node_id()) for k, v in reversed(list(m.symbols.items())))
+        return " ".join(rows) + " ; next=%d fresh=%d syms=%s" % (m._next_free_id, m._fresh_guess, syms)
+
+    def tmdump(self, e):
+        tm = self.envs[e].type_manager
+        return {
+            "bv": set(str(w) for w in tm._bv_types),
+            "arr": set(ty_str(ty_of_obj(t)) for t in tm._array_types.values()),
+            "fun": set(ty_str(ty_of_obj(t)) for t in tm._function_types.values()),
+            "decl": set("%s/%d" % (hx(n), d.arity) for n, d in tm._custom_types_decl.items()),
+            "cus": set(ty_str(ty_of_obj(t)) for t in tm._custom_types.values()),
+        }
+
+    def request(self):
+        addr = []
+        for e in (0, 1):
+            nodes = sorted(self.mgr[e].formulae.values(), key=id)
+            addr.append("A:" + ",".join(str(n.node_id()) for n in nodes))
+        return "mgr %s %s | %s" % (addr[0], addr[1], " | ".join(self.ops))
+
+    def py_results(self):
+        out = []
+        for x in self.res:
+            if x.special == "type":
+                out.append("0")
+            elif x.out is not None:
+                out.append(x.out)
+            else:
+                out.append(str(x.obj.node_id()))
+        return out
+
+    def search(self):
+        """S: the property itself, with the blueprint as oracle.  Returns [(sig, what)]."""
+        V = []
+        memo = {}
+        for idx, x in enumerate(self.res):
+            if x.special == "type":
+                continue
+            if x.special and x.special[0] == "get":
+                if x.obj is None:
+                    V.append(({"oracle": "array-get", "shape": "raises", "got": x.out}, "array_value_get raised (op %d)" % idx))
+                    continue
+                ao, io = self.o(x.special[1]), self.o(x.special[2])
+                want = ao.array_value_assigned_values_map().get(io, ao.array_value_default())
+                if want is not x.obj:
+                    n = (len(ao.args()) - 1) // 2
+                    pos = [i for i in range(n) if ao.args()[2 * i + 1] is io]
+                    V.append(({"oracle": "array-get", "shape": "wrong-value",
+                               "position": "absent" if not pos else "last" if pos[0] == n - 1 else "first" if pos[0] == 0 else "middle"},
+                              "array_value_get(%s) = %s, the assignments say %s (op %d)" % (io, x.obj, want, idx)))
+                continue
+            if x.special and x.special[0] == "norm":
+                self._search_norm(idx, x, V, memo)
+                continue
+            if x.exp is None and x.out is None:
+                ak = self.actual_kid(x.obj, memo)
+                if ak != x.kid:
+                    V.append(({"oracle": "blueprint", "op": x.name, "shape": "structure-differs"},
+                              "op %d %s: returned %s whose accessors give %r, built from %r" %
+                              (idx, x.name, x.obj, self.B.node[ak], self.B.node[x.kid])))
+            elif x.exp != x.out:
+                sig = {"oracle": "outcome", "op": x.name, "expected": x.exp or "node", "got": x.out or "node"}
+                if x.recipe and x.recipe[0] in ("Int", "Real", "Bool"):
+                    sig["spelling"] = x.recipe[1][0][0]
+                V.append((sig, "op %d: %s expected %s, got %s" % (idx, self.ops_text(idx), x.exp or "a node", x.out or x.obj)))
+        # one object per structure, within each environment
+        for e in (0, 1):
+            bykid = {}
+            for c, n in self.mgr[e].formulae.items():
+                if n._content is not c and n._content != c:
+                    V.append(({"oracle": "identity", "shape": "table-key-differs-from-content"}, "node %s" % n))
+                k = self.actual_kid(n, memo)
+                o = bykid.setdefault(k, n)
+                if o is not n:
+                    V.append(({"oracle": "identity", "shape": "equal-structure-different-objects", "nt": str(n.node_type())},
+                              "env %d: nodes %d and %d are both %r" % (e, o.node_id(), n.node_id(), self.B.node[k])))
+            for idx, x in enumerate(self.res):
+                if x.env == e and x.obj is not None and x.special != "type":
+                    c = x.obj._content
+                    if self.mgr[e].formulae.get(c) is not x.obj:
+                        V.append(({"oracle": "identity", "shape": "returned-object-not-in-table"}, "op %d" % idx))
+        return V
+
+    def ops_text(self, idx):
+        # position of op idx in self.ops = idx (one op per result)
+        return self.ops[idx]
+
+    def _search_norm(self, idx, x, V, memo):
+        e = x.env
+        src_i = x.special[1]
+        if x.obj is None or x.exp is not None:
+            if x.exp != x.out:
+                V.append(({"oracle": "normalize", "shape": "outcome", "expected": x.exp or "node", "got": x.out or "node"},
+                          "op %d: normalize(%s) expected %s, got %s" % (idx, self.o(src_i), x.exp or "a copy", x.out or x.obj)))
+            return
+        ks, kc = self.k(src_i), self.actual_kid(x.obj, memo)
+        if ks != kc:
+            cm = {}
+            if self.B.canon(ks, cm) == self.B.canon(kc, cm):
+                V.append(({"oracle": "normalize", "shape": "array-assignment-order"},
+                          "op %d: the copy of %s lists the array-value assignments in another order: %s" % (idx, self.o(src_i), x.obj)))
+            else:
+                V.append(({"oracle": "normalize", "shape": "structure-differs"},
+                          "op %d: copy %s of %s" % (idx, x.obj, self.o(src_i))))
+        d = self.dag(x.obj)
+        srcids = set(id(n) for n in self.mgr[1 - e].formulae.values())
+        if any(i in srcids for i in d):
+            V.append(({"oracle": "normalize", "shape": "shared-node"}, "op %d: copy %s shares a node with the source environment" % (idx, x.obj)))
+        m = self.mgr[e]
+        tm = self.envs[e].type_manager
+        for n in d.values():
+            if n not in m or m.formulae.get(n._content) is not n:
+                V.append(({"oracle": "normalize", "shape": "foreign-node"}, "op %d: node %s of the copy is not a node of the target" % (idx, n)))
+                break
+        for n in d.values():
+            ty = None
+            if n.is_symbol():
+                ty = n.symbol_type()
+            elif n.is_array_value():
+                ty = n.array_value_index_type()
+            if ty is not None and not self.interned(tm, ty):
+                V.append(({"oracle": "normalize", "shape": "type-not-interned"},
+                          "op %d: type %s of %s is not the object registered in the target TypeManager" % (idx, ty, n)))
+                break
+
+
+def parse_tm(s):
+    out = {}
+    for part in s.split(" "):
+        if "=" in part:
+            k, v = part.split("=", 1)
+            out[k] = set(x for x in v.replace("|", "\x00").split("\x00") if x) if k != "bv" else set(x for x in v.split(",") if x)
+    return out
+
+
+def compare(h, answer):
+    """K: first difference between the model's answer and the implementation, or None"""
+    if answer == "bad-op":
+        return "the model rejects the request as ill-formed"
+    parts = answer.split(" # ")
+    if len(parts) != 5:
+        return "malformed model answer"
+    mres = parts[0].split(" ") if parts[0] else []
+    pres = h.py_results()
+    if len(mres) != len(pres):
+        return "model answered %d results for %d ops" % (len(mres), len(pres))
+    for i, (a, b) in enumerate(zip(mres, pres)):
+        if a != b:
+            return "op %d `%s`: model %s, implementation %s" % (i, h.ops[i], a, b)
+    for e in (0, 1):
+        pt = h.table(e)
+        if parts[1 + e] != pt:
+            ma, pa = parts[1 + e].split(" "), pt.split(" ")
+            for x, y in zip(ma, pa):
+                if x != y:
+                    return "env %d table: model `%s`, implementation `%s`" % (e, x, y)
+            return "env %d table: different length (%d vs %d)" % (e, len(ma), len(pa))
+        mt, pt2 = parse_tm(parts[3 + e]), h.tmdump(e)
+        for k in pt2:
+            if mt.get(k, set()) != pt2[k]:
+                return "env %d type manager %s: model-only %s, implementation-only %s" % (
+                    e, k, sorted(mt.get(k, set()) - pt2[k]), sorted(pt2[k] - mt.get(k, set())))
+    return None
+
+
+def sub_seed(seed, index):
+    return (seed * 1000003 + index * 7919 + 12345) & 0xFFFFFFFF
+
+
+def make_history(seed, index, nops, tier):
+    h = History(random.Random(sub_seed(seed, index)), nops, tier)
+    h.run()
+    return h
+
+
+def pick_nops(rng, tier):
+    r = rng.random()
+    if tier == "quick":
+        if r < 0.55:
+            return rng.randrange(4, 60)
+        if r < 0.9:
+            return rng.randrange(60, 200)
+        return rng.randrange(200, 401)
+    if r < 0.4:
+        return rng.randrange(4, 80)
+    if r < 0.8:
+        return rng.randrange(80, 400)
+    return rng.randrange(400, 1500)
+
+
+def evaluate(ctx, h, index, nops, answer):
+    rep = {"seed": ctx.seed, "index": index, "nops": nops, "tier": ctx.tier, "request": h.request()[:20000],
+           "readable": [h.ops[i] for i in range(min(len(h.ops), 400))]}
+    if answer is not None:
+        d = compare(h, answer)
+        if d is not None:
+            r = dict(rep)
+            r["divergence"] = d
+            ctx.report_k("history %d: %s" % (index, d), r)
+    for sig, what in h.search():
+        r = dict(rep)
+        r["violated"] = what
+        ctx.report_s(sig, what, r)
+
+
+def run(ctx):
+    _load_ops()
+    warnings.simplefilter("ignore")
+    sys.setrecursionlimit(20000)
+    quick = ctx.tier == "quick"
+    target = 2000 if quick else 14000
+    gen_budget = 40 if quick else 500
+    t0 = time.time()
+    hs = []
+    lines = []
+    index = 0
+    seen_nt = set()
+    while index < target and time.time() - t0 < gen_budget:
+        nops = pick_nops(ctx.rng, ctx.tier)
+        h = make_history(ctx.seed, index, nops, ctx.tier)
+        lines.append(h.request())
+        hs.append((index, nops, h))
+        index += 1
+        # evaluate in batches to bound memory
+        if len(hs) >= (500 if quick else 1000):
+            _flush(ctx, hs, lines, seen_nt)
+            hs, lines = [], []
+    _flush(ctx, hs, lines, seen_nt)
+    ctx.extra["node_types_covered"] = len(seen_nt)
+    ctx.extra["node_types_missing"] = sorted(set(range(66)) - seen_nt)
+    ctx.extra["histories"] = index
+    ctx.extra["generation_s"] = round(time.time() - t0, 1)
+
+
+def _flush(ctx, hs, lines, seen_nt):
+    if not hs:
+        return
+    answers = None
+    try:
+        answers = ctx.lean_run_sharded("C04", lines)
+    except common.LeanError as e:
+        ctx.report_l("driver C04 does not run", str(e))
+    for j, (index, nops, h) in enumerate(hs):
+        evaluate(ctx, h, index, nops, answers[j] if answers is not None else None)
+        hits = 0
+        seen = set()
+        for x in h.res:
+            if x.obj is not None:
+                if id(x.obj) in seen:
+                    hits += 1
+                seen.add(id(x.obj))
+        for e in (0, 1):
+            for n in h.mgr[e].formulae.values():
+                seen_nt.add(n.node_type())
+        for k, v in h.counts.items():
+            ctx.count("op:" + k, v)
+        ctx.count("ops", len(h.ops))
+        ctx.count("identity_hits", hits)
+        ctx.case(lines[j] if hits > 0 and len(h.ops) >= 4 else None)
+        if index < 3:
+            ctx.sample({"history": index, "ops": h.ops[:12], "results": h.py_results()[:12]})
+
+
+def replay(ctx, rep):
+    _load_ops()
+    warnings.simplefilter("ignore")
+    r = rep["replay"]
+    h = make_history(r["seed"], r["index"], r["nops"], r.get("tier", "quick"))
+    try:
+        ans = ctx.lean_run("C04", [h.request()])[0]
+    except common.LeanError as e:
+        ctx.report_l("driver C04 does not run", str(e))
+        ans = None
+    evaluate(ctx, h, r["index"], r["nops"], ans)
+    ctx.case(h.request())
